@@ -231,7 +231,7 @@ def viewStr (env : Env) (v : List (Key × List (List (Key × Doc)))) : String :=
 def specInput (env : Env) (src : Doc) : Option (List (List (Key × Doc))) :=
   match deref env src with
   | arr items => items.mapM (fun it => match it with
-      | obj _ s => some (members s)
+      | obj _ s => if allDefined s then some (members s) else none
       | _ => none)
   | _ => none
 
